@@ -49,7 +49,7 @@ def run(ctx):
 
     # single-qubit named gates at every position
     for name, rows in TEXT.items():
-        for n in range(1, ctx.budget(5, 7)):
+        for n in range(1, ctx.size(5, 7)):
             for q in range(n):
                 Ps = [G.rand_op(rng, n) for _ in range(6)] + [(tuple(c if i == q else 'I' for i in range(n)), p) for c in 'XYZ' for p in (0, 1)]
                 try:
@@ -62,7 +62,7 @@ def run(ctx):
                     if g_ != w:
                         ctx.fail(name, 'gate %s on qubit %d of %d does not act by the textbook table' % (name, q, n), dict(P=P, got=g_, want=w))
     # CNOT both orientations at all position pairs
-    for n in range(2, ctx.budget(5, 7)):
+    for n in range(2, ctx.size(5, 7)):
         for c, t in itertools.permutations(range(n), 2):
             lo, hi = min(c, t), max(c, t)
             rows = cnot_rows(0 if c < t else 1, 1 if c < t else 0)
